@@ -1116,6 +1116,36 @@ class CallMixin(object):
                 else:
                     yield self.new_list(s, PyListV([recv]))
             return
+        if name == 'find' and len(args) == 1:
+            sep = args[0]
+            sep = lift_seq_const(sep.py) if isinstance(sep, ConstV) else sep
+            yield st, IntV(z3.IndexOf(recv.t, sep.t, 0))
+            return
+        if name == 'rfind' and len(args) == 1 and isinstance(args[0], ConstV) and len(args[0].py) == 1:
+            # exact characterisation of the last occurrence of a single character c: r == -1 and c does not occur, or
+            # s[r] == c and c does not occur in s[r+1:]
+            c = z3.IntVal(ord(args[0].py) if isinstance(args[0].py, str) else args[0].py[0])
+            r = fresh('rfind')
+            ln = z3.Length(recv.t)
+            unit = z3.Unit(c)
+            s2 = st.clone()
+            s2.pc.append(z3.Or(z3.And(r == -1, z3.Not(z3.Contains(recv.t, unit))),
+                               z3.And(0 <= r, r < ln, recv.t[r] == c, z3.Not(z3.Contains(z3.SubSeq(recv.t, r + 1, ln - r - 1), unit)))))
+            yield s2, IntV(r)
+            return
+        if name == 'partition' and len(args) == 1:
+            sep = args[0]
+            sep = lift_seq_const(sep.py) if isinstance(sep, ConstV) else sep
+            idx = z3.IndexOf(recv.t, sep.t, 0)
+            ln = z3.Length(recv.t)
+            sl = z3.Length(sep.t)
+            for s, found in self.fork(st, idx >= 0):
+                if found:
+                    yield s, TupV([SeqV(z3.SubSeq(recv.t, 0, idx), recv.kind), SeqV(sep.t, recv.kind),
+                                   SeqV(z3.SubSeq(recv.t, idx + sl, ln - idx - sl), recv.kind)])
+                else:
+                    yield s, TupV([recv, SeqV(z3.Empty(IntSeq), recv.kind), SeqV(z3.Empty(IntSeq), recv.kind)])
+            return
         if name == 'startswith':
             p = args[0]
             p = lift_seq_const(p.py) if isinstance(p, ConstV) else p
